@@ -17,7 +17,7 @@ A translated function `f` is
   expressions).  An external may be called as a statement, as the whole right-hand side of an assignment (name or tuple-of-names
   target; the unpacking is `Rbacx.PyT.unpack`: TypeError / ValueError), or as the item of a `with`.
 * `<Class>_state`: a generated structure with one `PyVal` field per attribute that some translated method of the class ASSIGNS
-  (`self.x = E`, `E` pure); it is returned also when an exception leaves the method (the assignments made so far are kept).
+  (`self.x = E`, `E` pure), fields in alphabetical order; it is returned also when an exception leaves the method (the assignments made so far are kept).
   Attributes that are only read are parameters `self_<attr>`.
 * `self.m(…)` for another translated method of the class (listed BEFORE its callers), `g(…)` for a translated module function: the
   callee is applied to the current world and state, its result matched on.
@@ -519,6 +519,8 @@ def translate(source: str, targets: dict[str, str], cfg: WorldCfg) -> dict:
                 fs.append(n.attr)
             if isinstance(n, ast.Attribute) and isinstance(n.ctx, (ast.Store, ast.Del)) and not _is_self_attr(n):
                 raise Unsupported(f"{d}: attribute assignment {ast.unparse(n)}")
+    for fs in state.values():
+        fs.sort()     # a canonical order: swapping two assignments must not permute the structure
     out: dict = {"lean": "", "state": state, "functions": {}}
     for cls, fs in state.items():
         names = [field_name(f) for f in fs]
